@@ -1090,5 +1090,8 @@ func classJWK(f []string, obs string) string {
 	if len(tag) > 40 {
 		tag = tag[:40]
 	}
+	if strings.HasPrefix(tag, "jt-") { // JSON text layer (gen_jsontext.go)
+		return "T/" + tag[3:] + "/" + res
+	}
 	return "I/" + tag + "/" + res
 }
